@@ -14,12 +14,12 @@ from ..mon import vmobs
 PROPERTY = "C04"
 TECHNIQUE = "differential runtime monitoring (VM under step observer vs reference interpreter) over enumerated masks/operators/indices/copy patterns + random vector programs"
 LEVEL_TEXT = ("Complete in both tiers: all 980 read masks and 166 non-repeating write masks x {float,int} x source kinds, every listed "
-              "operator x vector size x component type (incl. mixed components), matrix + - * (matrix), * / (scalar), matrix * vector, "
+              "operator x vector size x component type (incl. mixed components), matrix + - * (matrix), * / (scalar, incl. divisors with inexact reciprocals), the compound forms op= of these, matrix * vector, "
               "row/element read and write for every constant and every dynamic index, nested write chains (m[i][j], arr[i].xz, "
               "s.v.y, globals), copy independence for 8 storage pairs x 2 directions x every write form; plus seeded random programs. "
               "Each execution on the real VM is compared component-wise with the reference interpreter.")
-LEVEL_NOTE = ("Trusted: reference interpreter (value semantics: every read of a vector/matrix copies), printer. Floats compared within "
-              "1e-9 relative; cases leaving the numeric domain are dropped. Programs the compiler rejects count as violations for the "
+LEVEL_NOTE = ("Trusted: reference interpreter (value semantics: every read of a vector/matrix copies), printer. Floats are compared exactly (both sides evaluate every written operation in double precision), "
+              "within 1e-9 relative only when a matrix product was evaluated (the order of its additions is not written in the source); cases leaving the numeric domain are dropped. Programs the compiler rejects count as violations for the "
               "directed families (they are well-typed by C09) and are skipped for random programs.")
 RULE = ("case = (source, function, inputs); non-trivial when the VM executed >= 1 of SHUFFLE, VECTOR_*, MATRIX_*, CONSTRUCT_PRIMITIVE "
         "and the oracle compared the value; distinct by (source, function, inputs).")
